@@ -262,7 +262,8 @@ func runC12(cfg Config) {
 			"scripted upstream store under the same kind of scheduler (uniform, priorities with change points, later callers first, bursts): the "+
 			"trace must be a run of WdqSys.step (wdq.accept: WDedup.step + Dedup.step per kind) resp. Dedup.step, results equal; monitors: a read "+
 			"that found a write in flight returns that write's chunk and error, a writer the error of its request's upstream call; plus free-running stress of DedupQueue (Get/Has) and WriteDedupQueue (Store/Get overlap) with a "+
-			"gated store. non-trivial = distinct trace with at least one follower")
+			"gated store; the real HTTP chunk handler over a WriteDedupQueue over a held store (both formats): chunk objects and slow GET responses that readers "+
+			"overlapping an upload were handed are re-checked after later uploads of other chunks. non-trivial = distinct trace with at least one follower")
 	m, err := StartModel(cfg.Driver)
 	if err != nil {
 		fatal(err)
@@ -312,6 +313,9 @@ func runC12(cfg Config) {
 
 	// trace validation of WriteDedupQueue (writers, readers, HasChunk callers on one queue) and DedupQueue.HasChunk
 	runC12Wdq(cfg, rep, m, rng)
+
+	// the server composition: real HTTP handler over a WriteDedupQueue; what overlapping readers are handed stays valid
+	c12HandlerHeld(cfg, rep, rng)
 
 	// free-running stress: WriteDedupQueue (reads overlapping a write) and HasChunk
 	for it := 0; it < cfg.N(150, 3000); it++ {
